@@ -131,23 +131,39 @@ def strategy(tier):
 def _yielding_pending_table(sched, m):
     """Every access to the table of pending disconnects is a scheduling
     point (the table is shared by all threads and, per namespace, by all
-    clients), except while the accessing thread holds the manager's lock."""
+    clients), also inside the regions that the manager's lock protects."""
     import threading
 
-    class OwnLock:
+    class _Flag:
         def __init__(self):
-            self._l = threading.Lock()
-            self.owner = None
+            self.flag = False
 
-        def acquire(self, *a, **k):
-            r = self._l.acquire(*a, **k)
-            if r:
-                self.owner = threading.get_ident()
-            return r
+    class OwnLock:
+        """The manager's lock, in terms of the scheduler: an actor that finds
+        it taken parks until it is released, so the holder may be pre-empted
+        inside the locked region like anywhere else."""
+        def __init__(self):
+            self.owner = None
+            self.waiters = []
+
+        def acquire(self, blocking=True, timeout=-1):
+            while self.owner is not None:
+                if not blocking or sched.me() is None:
+                    return False
+                ev = _Flag()
+                self.waiters.append(ev)
+                sched.park(ev, None)
+            self.owner = threading.get_ident()
+            return True
 
         def release(self):
             self.owner = None
-            self._l.release()
+            for ev in self.waiters:
+                ev.flag = True
+            del self.waiters[:]
+
+        def locked(self):
+            return self.owner is not None
 
         def __enter__(self):
             self.acquire()
@@ -160,8 +176,7 @@ def _yielding_pending_table(sched, m):
 
     class Table(dict):
         def _y(self, what):
-            if lock.owner != threading.get_ident():
-                sched.yield_point('pending.' + what)
+            sched.yield_point('pending.' + what)
 
         def __contains__(self, k):
             self._y('in')
